@@ -92,13 +92,23 @@ func mutateTokens(r *rng.R, toks []sg.Token) string {
 			break
 		}
 	}
-	return sg.Join(t)
+	out := sg.Join(t)
+	// character-level truncation: the text ends in the middle of a token, e.g. right after the
+	// opening quote of a string or inside a comment opener
+	if r.Intn(6) == 0 && len(out) > 0 {
+		cut := r.Intn(len(out))
+		if q := strings.IndexByte(out[cut:], '"'); q >= 0 && r.Bool() {
+			cut += q + 1 // directly after a quote
+		}
+		out = out[:cut]
+	}
+	return out
 }
 
 // C15: the schema parser records exactly what the source says, or errors.
 func C15(c *runner.Cfg) *report.Result {
 	res := report.New("C15", "")
-	res.Rule = "(1) syntax trees from a grammar-directed generator (imports with aliases, options, enums, messages, structs, services and subservices with every method form, contextual keywords as names, tags up to 65535) are rendered with randomized whitespace, comments and optional separators; the canonical dump of the parser's tree (verifhook/vlang.ParseDump) must equal the canonical dump of the generated tree; (2) token-level mutants of those renderings (delete/duplicate/swap/replace/truncate, scanner-hostile lexemes: NUL, char/float/raw-string literals, non-decimal and out-of-range integers, unterminated strings and comments, private-use characters in place of a token): no panic; texts the harness's own tokenizer classifies as lexically invalid must be rejected; accepted texts must record as many definitions as the token stream delimits and must re-print to a fixed point (parse -> dump -> rebuild -> print -> parse -> same dump); non-trivial = text with at least one definition; distinct = distinct texts"
+	res.Rule = "(1) syntax trees from a grammar-directed generator (imports with aliases, options, enums, messages, structs, services and subservices with every method form, contextual keywords as names, tags up to 65535) are rendered with randomized whitespace, comments and optional separators; the canonical dump of the parser's tree (verifhook/vlang.ParseDump) must equal the canonical dump of the generated tree; (2) token-level mutants of those renderings (delete/duplicate/swap/replace/truncate at token and at character level, scanner-hostile lexemes: NUL, char/float/raw-string literals, non-decimal and out-of-range integers, unterminated strings and comments, private-use characters in place of a token): no panic; texts the harness's own tokenizer classifies as lexically invalid must be rejected; accepted texts must record as many definitions as the token stream delimits and must re-print to a fixed point (parse -> dump -> rebuild -> print -> parse -> same dump); non-trivial = text with at least one definition; distinct = distinct texts"
 	n := c.N(1200, 120000)
 	c.Cases("C15/gen", n, func(idx int, _ *journal.Slot) {
 		r := rng.New(c.Seed, "c15/gen", uint64(idx))
